@@ -50,6 +50,7 @@ mutual
 def constTexts : Value → List Bytes
   | .constString (some bs) => [bs]
   | .constArray _ _ elems => constTextsElems elems
+  | .array _ _ _ _ _ kvs => constTextsElems kvs
   | _ => []
 def constTextsElems : List (Lbl × Value) → List Bytes
   | [] => []
